@@ -9,7 +9,7 @@ LEVEL_TEXT = ("PARTIAL. Proved in Coq for a two-master axis: an instance at a ma
               "number is the exact linear blend a + t(b - a) (and that formula meets the masters at the ends); swap_glyph_names does "
               "not move code points and, applied twice, restores kerning and group references (the renaming is an involution). The "
               "blend and the swap model are evaluated with vm_compute against Instantiator.generate_instance / swap_glyph_names on "
-              "generated two-master families (coordinates, advances, anchors, kerning; with rounding on, each value must be an integer within 1/2 of the exact blend -- fontMath rounds kerning half away from zero and geometry with otRound). For ANY number of masters and axes: the variation "
+              "generated two-master families (coordinates, advances, anchors, kerning; with rounding on, each geometry value must be exactly otRound of the blend -- ties up, the rounding the instantiator announces -- and each kerning value an integer within 1/2 of it). For ANY number of masters and axes: the variation "
               "model as Variator uses it (getDeltas + interpolateFromDeltas, Interp/VarModel.v) reproduces every master at its "
               "location under the unit-lower-triangular hypothesis on the regions' scalars, which is evaluated on the real model of "
               "every generated family together with an exact comparison of deltas and interpolated values (one and two axes, "
@@ -29,10 +29,15 @@ RULE = ("two-master families (integer and fractional coordinates) instantiated a
         " Generated designspace rules (overlapping ranges, a sub listed by several rules, chains, a missing glyph): the instance equals the rule-free instance with the active substitutions -- determined independently -- applied in document order.")
 ASSUMPTIONS = ["IEEE evaluation of a + t(b-a) is exact for dyadic t and the generated coordinates"]
 
-FN_BLEND = ("fun c : (vec * vec * Qc * bool * vec) => let '(m0, m1, t, rnd, obs) := c in "
-            "let v := instance_at m0 m1 t in "
+# with rounding on: the geometry values (everything but the nk kerning values at the end of the vector) are exactly otRound of
+# the blend -- ties go up, the rounding the instantiator announces ("the same rounding function used by varLib") and the one the
+# variable font's own deltas are rounded with; kerning values (rounded by fontMath's kerning object on its own) are integers
+# within 1/2 of the blend
+FN_BLEND = ("fun c : (vec * vec * Qc * bool * vec * nat) => let '(m0, m1, t, rnd, obs, nk) := c in "
+            "let v := instance_at m0 m1 t in let ng := (length v - nk)%nat in "
             "if rnd then (if Nat.eqb (length v) (length obs) && forallb (fun vo => qc_leb (qc_abs (snd vo - fst vo)) (qq 1 2) && "
-            "qc_eqb (snd vo) (qc_of_Z (otRound (snd vo)))) (combine v obs) then 3 else 0) "
+            "qc_eqb (snd vo) (qc_of_Z (otRound (snd vo)))) (combine v obs) && "
+            "forallb (fun vo => qc_eqb (snd vo) (qc_of_Z (otRound (fst vo)))) (firstn ng (combine v obs)) then 3 else 0) "
             "else (if list_eqb qc_eqb v obs then 3 else 0)")
 FN_SWAP = ("fun c : (str * str * sfont * option sfont) => let '(a, b, f, obs) := c in "
            "(if option_eqb sfont_eqb (swap_glyph_names a b f) obs then 1 else 0) + "
@@ -246,6 +251,17 @@ def explore(ctx):
             # fractional kerning values too (quarters: exact in binary floating point)
             for m in masters:
                 m["kerning"] = {k: v + Fr(rng.randint(-3, 3), 4) for k, v in m["kerning"].items()}
+        # always: values whose blend at t = 1/2 (and 1/4) is an exact half with an EVEN floor and with an odd one, positive and
+        # negative (102.5, 103.5, -23.5 ...): rounding is half-up (otRound), not half-to-even
+        for g0, g1 in zip(masters[0]["glyphs"], masters[1]["glyphs"]):
+            if g0["contours"] and not frac:
+                (x0, y0, t0), (x1, y1, t1) = g0["contours"][0][0], g1["contours"][0][0]
+                g0["contours"][0][0], g1["contours"][0][0] = (Fr(100), Fr(-24), t0), (Fr(105), Fr(-23), t1)
+                if len(g0["contours"][0]) > 1:
+                    (x0, y0, t0), (x1, y1, t1) = g0["contours"][0][1], g1["contours"][0][1]
+                    g0["contours"][0][1], g1["contours"][0][1] = (Fr(101), Fr(2), t0), (Fr(106), Fr(4), t1)
+                g0["width"], g1["width"] = Fr(500), Fr(505)
+                break
         ds, fonts = dsgen.make_designspace(rng, masters, lib)
         names = [g["name"] for g in base["glyphs"]]
         kern_keys = sorted(set(base["kerning"]) | set(masters[1]["kerning"]))
@@ -259,7 +275,7 @@ def explore(ctx):
         m0, m1 = font_vector(fonts[0], names, kern_keys), font_vector(fonts[1], names, kern_keys)
         # one Instantiator serves the whole sequence; a master location comes first so that whatever it hands out
         # there is exercised (and possibly rounded) before the interior locations are blended
-        for loc in ([900, 300, 100, 500, 700] if not ctx.quick() else [rng.choice([100, 900])] + rng.sample([300, 500, 700], 2)):
+        for loc in ([900, 300, 100, 500, 700] if not ctx.quick() else [rng.choice([100, 900]), 500, rng.choice([300, 700])]):
             d = InstanceDescriptor()
             d.familyName, d.styleName, d.location = "Fam", "I%d" % loc, {"Weight": loc}
             case = {"font": jsonable(base), "master1": jsonable(masters[1]), "location": loc, "round_geometry": rnd, "lib": lib}
@@ -279,7 +295,7 @@ def explore(ctx):
             if len(obs) != len(m0):
                 ctx.spec_failure(case, "instance has a different point structure than the masters")
                 continue
-            cases.append(G.tup(g_vec(m0), g_vec(m1), geom.g_q(Fr(loc - 100, 800)), G.b(rnd), g_vec(obs)))
+            cases.append(G.tup(g_vec(m0), g_vec(m1), geom.g_q(Fr(loc - 100, 800)), G.b(rnd), g_vec(obs), G.nat(len(kern_keys))))
             meta.append(case)
             # unicodes and lib
             for n in names:
@@ -344,7 +360,7 @@ def explore(ctx):
             if len(obs) != len(vecs[0]):
                 ctx.spec_failure(case, "instance has a different point structure than the masters")
                 continue
-            cases.append(G.tup(g_vec(vecs[seg]), g_vec(vecs[seg + 1]), geom.g_q(Fr(loc - locs[seg], 400)), G.b(rnd), g_vec(obs)))
+            cases.append(G.tup(g_vec(vecs[seg]), g_vec(vecs[seg + 1]), geom.g_q(Fr(loc - locs[seg], 400)), G.b(rnd), g_vec(obs), G.nat(len(kern_keys))))
             meta.append(case)
         if before != [snap.font_snapshot(f) for f in fonts]:
             ctx.spec_failure(dict(info, font=jsonable(base)), "generating instances altered the sources")
